@@ -3,6 +3,7 @@ package kit
 import (
 	"fmt"
 	"sync"
+	"sync/atomic"
 
 	"ergo.services/ergo/gen"
 )
@@ -13,8 +14,10 @@ type MetaConfig struct {
 	Probe   *Probe
 	SpinNs  int64
 	StartFn func(m *Meta) error // body of Start(); default: block until Stop is closed
-	Stop    chan struct{}
-	once    sync.Once
+	// PanicInTerminate makes the Terminate callback panic (after it has been recorded)
+	PanicInTerminate bool
+	Stop             chan struct{}
+	once             sync.Once
 }
 
 func (c *MetaConfig) StopStart() {
@@ -27,8 +30,9 @@ func (c *MetaConfig) StopStart() {
 // and Terminate are.
 type Meta struct {
 	gen.MetaProcess
-	Cfg *MetaConfig
-	g   guard
+	Cfg   *MetaConfig
+	g     guard
+	terms atomic.Int32
 }
 
 func NewMeta(cfg *MetaConfig) *Meta {
@@ -115,4 +119,9 @@ func (m *Meta) Terminate(reason error) {
 	st := m.g.enter(m.Cfg.Probe, m.Cfg.Label, "terminate")
 	spin(m.Cfg.SpinNs)
 	m.rec("terminate", gen.PID{}, nil, reason, st)
+	if m.Cfg.PanicInTerminate && m.terms.Add(1) == 1 {
+		// (only the first invocation panics: should the callback be invoked again, the record of it
+		// must survive for the oracle instead of taking the process down from inside a panic handler)
+		panic("verif: terminate callback panics")
+	}
 }
